@@ -5,5 +5,6 @@ MM == INSTANCE MuxMonitor
 VARIABLES l, poss, cur, failed, skip
 MInit(e) == {MM!MMInit(e)}
 MStep(s, e) == MM!MMStep(s, e)
-INSTANCE TraceLoop WITH InitStates <- MInit, Step <- MStep
+NoOne(e) == ""
+INSTANCE TraceLoop WITH InitStates <- MInit, Step <- MStep, One <- NoOne
 =============================================================================
